@@ -221,8 +221,9 @@ theorem writeSection_ok (tbl) (m : Mol) (c : List (Int × Nat)) (N w : Nat) (s :
   rfl
 
 theorem write_ok (tbl : List (String × Arity)) (m : Mol) (h : WfFacts tbl m) : write m = .ok (fileLines m) := by
-  unfold write
-  simp only [h.nonempty, Bool.false_eq_true, if_false]
+  have hall : m.atoms.all atomOk = true := List.all_eq_true.mpr h.atomsOk
+  unfold write writeBody
+  simp only [h.nonempty, hall, Bool.not_true, Bool.false_eq_true, if_false]
   rw [mapM_except_ok_of_forall _ (sectionLines m (correspondence m) (widthsOf m).idx) _
     (fun s hs => writeSection_ok tbl m _ _ _ s (h.sections s hs))]
   rfl
